@@ -101,7 +101,7 @@ def cli_cases(ctx):
     early = {"dur": "early", "exit": 0}
     cases = []
     forms = [("300ms", 300), ("0.3s", 300), (300000000, 300), ("1s", 1000), ("0h0m0.5s", 500)]
-    modes = ["direct", "stage", "stage-overrides", "nested", "second-target", "run-task"]
+    modes = ["direct", "stage", "stage-overrides", "nested", "second-target", "run-task", "interactive"]
     for mode in modes:
         for shape in (("sleep", "busy") if ctx.tier == "thorough" else (rng.choice(["sleep", "busy"]),)):
             form, ms = rng.choice(forms)
@@ -133,8 +133,12 @@ def cli_job(c, jid):
          "before": [fix(cmd_text("b%d" % k, b)) for k, b in enumerate(c["before"])], "after": [fix(cmd_text("a%d" % k, a)) for k, a in enumerate(c["after"])]}
     doc = {"tasks": {"t": t, "first": {"command": ["true"]}},
            "pipelines": {"p": [{"task": "t"}], "po": [{"task": "t", "env": {"SOME": "x"}, "variables": {"v": "1"}}], "outer": [{"pipeline": "p", "name": "inner"}]}}
-    argv = {"direct": ["t"], "stage": ["p"], "stage-overrides": ["po"], "nested": ["outer"], "second-target": ["first", "t"], "run-task": ["run", "task", "t"]}[c["mode"]]
+    argv = {"direct": ["t"], "stage": ["p"], "stage-overrides": ["po"], "nested": ["outer"], "second-target": ["first", "t"], "run-task": ["run", "task", "t"], "interactive": ["t"]}[c["mode"]]
+    if c["mode"] == "interactive":          # the task talks to the terminal; nobody types: the timeout still ends it
+        doc["tasks"]["t"]["interactive"] = True
     j = {"id": jid, "files": {"cfg.json": clilib.jcfg(doc)}, "argv": ["-c", "cfg.json", "--raw"] + argv, "keep": ["out"], "timeout": 40}
+    if c["mode"] == "interactive":
+        j["stdin_open"] = True
     if c["kind"] == "cli-orphan":
         j["keep"] = ["out", "orphan"]
         j["linger"] = 6
